@@ -10,6 +10,7 @@ import (
 	"encoding/base64"
 	"encoding/json"
 	"fmt"
+	"math/rand/v2"
 	"strings"
 	"sync"
 	"time"
@@ -235,6 +236,38 @@ func bitflips(d *donor, stride int, yield func(Mutant)) {
 // payload of a JWS envelope and re-encodes them (signature untouched): the
 // natural single-bit mutations of the signed content, which a flip in the
 // base64 text does not reach.
+// doubleFlips flips two bits at once: the first inside a signed region, the
+// second anywhere in a signed region or the signature.
+func doubleFlips(d *donor, rng *rand.Rand, n int, yield func(Mutant)) {
+	spans := regionsOf(d)
+	var signed, sigOrSigned []int
+	for i := range d.raw {
+		reg, _ := regionAt(spans, i)
+		switch reg {
+		case "protected", "payload":
+			signed = append(signed, i)
+			sigOrSigned = append(sigOrSigned, i)
+		case "signature":
+			sigOrSigned = append(sigOrSigned, i)
+		}
+	}
+	if len(signed) == 0 {
+		return
+	}
+	for k := 0; k < n; k++ {
+		a, b := signed[rng.IntN(len(signed))], sigOrSigned[rng.IntN(len(sigOrSigned))]
+		ba, bb := rng.IntN(8), rng.IntN(8)
+		if a == b && ba == bb {
+			continue
+		}
+		m := append([]byte{}, d.raw...)
+		m[a] ^= 1 << uint(ba)
+		m[b] ^= 1 << uint(bb)
+		reg, _ := regionAt(spans, a)
+		yield(Mutant{MT: d.mt, Class: "bitflip", Region: reg, Desc: fmt.Sprintf("%s bits %d.%d and %d.%d", d.name, a, ba, b, bb), Data: m})
+	}
+}
+
 func decodedBitflips(d *donor, stride int, yield func(Mutant)) {
 	if d.mt != sims.JWS {
 		return
@@ -758,7 +791,7 @@ func inAny(s []any, x any) bool {
 
 func run(r *core.Run) int {
 	r.Rule = "corpus of valid envelopes (JWS/COSE x key kinds x chain length 1..4 x both schemes x plain/rich) plus a look-alike family (same key+certificate, other key, same subject with other key, same key re-issued); " +
-		"mutants: single-bit flips (quick: every bit of one envelope per format, every 7th bit of the others; thorough: every bit of every member), insert/delete/replace at every region edge, all 5^4 assignments of {protected, payload, signature, chain} from the family donors, chain edits and leaf substitutions, value-preserving and near-value-preserving re-encodings, base64url slack. " +
+		"mutants: single-bit flips (quick: every bit of one envelope per format, every 7th bit of the others; thorough: every bit of every member), random double flips inside the signed regions / signature, insert/delete/replace at every region edge, all 5^4 assignments of {protected, payload, signature, chain} from the family donors, chain edits and leaf substitutions, value-preserving and near-value-preserving re-encodings, base64url slack. " +
 		"non-trivial = the mutant differs from its parent inside a signed region, or is a splice / substitution; distinct by content hash"
 	r.Assume("the oracle decodes with encoding/json, encoding/base64 and fxamacker/cbor; ECDSA/RSA-PSS verification is std crypto")
 	c := buildCorpus(!r.Quick())
@@ -766,7 +799,30 @@ func run(r *core.Run) int {
 		otherEnvelope[mt] = c.family[mt][2].raw
 	}
 	var muts []Mutant
-	add := func(m Mutant) { muts = append(muts, m) }
+	total := 0
+	flush := func() {
+		base := total
+		r.Parallel(len(muts), func(i int) {
+			m := &muts[i]
+			judge(r, m)
+			if m.Class != "control" && m.Region != "structure" && m.Region != "encoding" && m.Region != "signature-slack" {
+				r.Nontrivial(core.Short(m.Data))
+			}
+			if (base+i)%2003 == 0 || m.Class == "reencode" && (base+i)%17 == 0 {
+				r.Sample(m.Class+"/"+m.Region, map[string]any{"mutant": m.Desc, "bytes": len(m.Data)})
+			}
+		})
+		total += len(muts)
+		muts = muts[:0]
+	}
+	// mutants are judged in batches so that the thorough tier need not hold
+	// millions of envelope copies at once
+	add := func(m Mutant) {
+		muts = append(muts, m)
+		if len(muts) >= 60000 {
+			flush()
+		}
+	}
 	for _, d := range c.donors {
 		add(Mutant{MT: d.mt, Class: "control", Region: "none", Desc: d.name + " unmodified", Data: d.raw})
 	}
@@ -777,29 +833,20 @@ func run(r *core.Run) int {
 			stride = 1
 			fullFlip[d.mt] = true
 		}
-		if !r.Quick() && !(strings.Contains(d.name, "p256") || strings.Contains(d.name, "rsa2048") || strings.Contains(d.name, "fam")) {
-			stride = 5
-		}
 		bitflips(d, stride, add)
 		decodedBitflips(d, stride, add)
 		boundaries(d, add)
+		// two flips at once, both inside what the signature covers or one there
+		// and one in the signature (errors that might cancel out)
+		doubleFlips(d, r.Rand("double/"+d.name), r.Pick(150, 6000), add)
 	}
 	dualChains(c, add)
 	splices(c, add)
 	chainEdits(c, add)
 	reencodings(c, add)
+	flush()
 	r.Set("corpus_members", len(c.donors))
-	r.Set("mutants", len(muts))
-	r.Parallel(len(muts), func(i int) {
-		m := &muts[i]
-		judge(r, m)
-		if m.Class != "control" && m.Region != "structure" && m.Region != "encoding" && m.Region != "signature-slack" {
-			r.Nontrivial(core.Short(m.Data))
-		}
-		if i%2003 == 0 || m.Class == "reencode" && i%17 == 0 {
-			r.Sample(m.Class+"/"+m.Region, map[string]any{"mutant": m.Desc, "bytes": len(m.Data)})
-		}
-	})
+	r.Set("mutants", total)
 	return r.Finish(r.Pick(20000, 300000),
 		core.Require{Counter: "accepted-and-confirmed", Why: "no accepted mutant was confirmed by the oracle"},
 		core.Require{Counter: "rejected bitflip/payload", Why: "no bit flip inside a signed payload was generated and rejected"},
